@@ -165,6 +165,11 @@ func (r *reader) ReadTracks() (err error) {
 		//fmt.Printf("message %v\n", m)
 		tr := int(r.Track())
 
+		if tr < 0 || tr >= len(r.Tracks) {
+			err = fmt.Errorf("found more tracks than the %v declared in the header", r.numTracks)
+			break
+		}
+
 		/*
 			// TODO maybe remove this after lots of tests
 			if m == nil {
